@@ -501,4 +501,56 @@ Proof.
   apply map_ext_in. intros col Hcol. apply in_zseq in Hcol. do 2 f_equal.
   unfold cell_line, single_line. destruct (H1 row col Hrow Hcol) as [x ->]. reflexivity.
 Qed.
+
+(* ---------- Debug, single-line renderings: all row lines are equally wide ---------- *)
+Lemma dec_aux_len_ge fuel : forall n acc, zlen acc <= zlen (dec_aux fuel n acc).
+Proof.
+  induction fuel as [|f IH]; intros n acc; cbn [dec_aux]; [lia|].
+  destruct (n / 10 =? 0).
+  - unfold zlen. cbn [length]. lia.
+  - specialize (IH (n / 10) ((48 + n mod 10) :: acc)). unfold zlen in *. cbn [length] in IH. lia.
+Qed.
+Lemma dec_aux_mono fuel : forall a b acc1 acc2, 0 <= a <= b -> zlen acc1 = zlen acc2 ->
+  zlen (dec_aux fuel a acc1) <= zlen (dec_aux fuel b acc2).
+Proof.
+  induction fuel as [|f IH]; intros a b acc1 acc2 Hab Hl; cbn [dec_aux]; [lia|].
+  assert (zlen ((48 + a mod 10) :: acc1) = zlen ((48 + b mod 10) :: acc2)) as Hl' by (unfold zlen in *; cbn [length]; lia).
+  assert (0 <= a / 10 <= b / 10) as Hd by (split; [apply Z.div_pos; lia|apply Z.div_le_mono; lia]).
+  destruct (a / 10 =? 0) eqn:Ea.
+  - destruct (b / 10 =? 0); [lia|]. rewrite Hl'. apply dec_aux_len_ge.
+  - destruct (b / 10 =? 0) eqn:Eb; [lia|]. apply IH; assumption.
+Qed.
+Lemma dec_len_mono a b : 0 <= a <= b -> zlen (dec a) <= zlen (dec b).
+Proof.
+  intros H. unfold dec. destruct (a <? 0) eqn:Ea; [lia|]. destruct (b <? 0) eqn:Eb; [lia|].
+  apply dec_aux_mono; [lia|reflexivity].
+Qed.
+Lemma zlen_pad_left_dec n w : zlen (dec n) <= w -> zlen (pad_left_dec n w) = w.
+Proof. intros H. unfold pad_left_dec, zrepeat, zlen in *. rewrite app_length, repeat_length. lia. Qed.
+
+Lemma zlen_concat_cells' (f : Z -> text) w j : 0 <= j -> (forall col, 0 <= col < j -> zlen (f col) = w) ->
+  zlen (concat (map (fun col => sep col ++ f col) (zseq j))) = j * w + INTER_GAP * Z.max 0 (j - 1).
+Proof. exact (zlen_concat_cells f w j). Qed.
+
+Theorem debug_single_line_widths m : Coh c es m -> is_empty m = false ->
+  (forall r cl, 0 <= r < nrows m -> 0 <= cl < ncols m -> exists x, lines_at m r cl = [x]) ->
+  let ew := max_width (build_cache render m) in
+  let iw := zlen (dec (size m)) in
+  forall row, 0 <= row < nrows m ->
+    zlen (pad_left_dec row iw) = iw /\
+    zlen (debug_cells_text m row ew iw) = ncols m * (iw + Z.max INNER_GAP 1 + ew) + INTER_GAP * (ncols m - 1).
+Proof.
+  intros HC He H1 ew iw row Hrow. destruct (nrows_ncols_size c es m HC) as (Hsz & Hnr & Hnc).
+  assert (0 < ncols m) as Hc0 by (unfold is_empty, size, zlen in *; nia).
+  split.
+  - apply zlen_pad_left_dec. apply dec_len_mono. nia.
+  - unfold debug_cells_text.
+    rewrite (zlen_concat_cells (fun col => (pad_left_dec (flat m row col) iw ++ pad_space INNER_GAP) ++ pad_right (single_line m row col) ew)
+               (iw + Z.max INNER_GAP 1 + ew) (ncols m) Hnc).
+    + unfold INTER_GAP. lia.
+    + intros col Hcol. rewrite !zlen_app2, zlen_pad_space.
+      rewrite zlen_pad_left_dec by (apply dec_len_mono; pose proof (flat_in_range c es m row col HC Hrow Hcol); lia).
+      rewrite zlen_pad_right; [lia|]. unfold single_line. destruct (H1 row col Hrow Hcol) as [x Hx]. rewrite Hx.
+      apply (max_width_ge m row col x HC Hrow Hcol). rewrite Hx. now left.
+Qed.
 End FmtSpec.
